@@ -12,6 +12,7 @@ necessary condition (breaking it breaks the behaviour on some document with a no
                 One reviewed exception: garden_pos_to_lsp_range_no_src (no text available; documented ASCII-only).
   LINE-RELATIVE the text whose UTF-16 length becomes `character` in offset_to_lsp_position starts at the start of
                 the offset's line: the slice start is derived from rfind('\\n') of the text before the offset.
+  LINE-BYTES    no byte offset computed in lsp:: derives from the lengths of `str::lines()` items (which exclude "\r\n").
   ONE-TEXT      in every function that builds a TextEdit, all the texts involved -- the argument of
                 whole_document_range / garden_pos_to_lsp_range / line_char_to_offset and the source handed to the
                 refactoring that produced the new text or the positions -- are one and the same value (a range
@@ -136,6 +137,8 @@ def run(ctx, res):
                             "the `character` of an LSP position built in %s is a %s count, but LSP columns are UTF-16 code units: every position after a "
                             "non-ASCII character on the line is shifted" % (p, "/".join(sorted(uu - {U.UTF16}))), st["span"])
         for (bi, kind, opn, ua, ub, span) in U.mixes(f, us):
+            if U.LINELEN in ua | ub:
+                continue    # reported once per function by LINE-BYTES
             res.bad("UTF16-UNITS", "%s # %s mixes %s with %s" % (p, kind, "/".join(sorted(ua)), "/".join(sorted(ub))),
                     "%s: `%s` combines a %s count with a %s count; the two differ as soon as the line holds a character outside ASCII" % (
                         p, opn, "/".join(sorted(ua)), "/".join(sorted(ub))), span)
@@ -159,10 +162,26 @@ def run(ctx, res):
     else:
         res.bad("UTF16-UNITS", "lsp::line_char_to_offset # character not from client", "no caller passes a client Position.character to line_char_to_offset", lco.loc())
     rets = result["lsp::line_char_to_offset"][0].get(0, set())
-    if rets == {U.BYTE}:
+    if rets == {U.BYTE} or U.LINELEN in rets:
         res.ok("UTF16-UNITS", "line_char_to_offset returns a byte offset")
     else:
         res.bad("UTF16-UNITS", "lsp::line_char_to_offset # returns %s" % sorted(rets), "line_char_to_offset's result is not purely a byte offset (%s)" % sorted(rets), lco.loc())
+    # ---- LINE-BYTES: no byte offset in lsp:: is built from the lengths of `str::lines()` items (lines() strips "\r\n" as well
+    # as "\n", so `len + 1` per line is short by one byte per line in a CRLF document)
+    n_ll = 0
+    for p, f in sorted(fns.items()):
+        us, _ = result[p]
+        tainted = sorted(l for l, v in us.items() if U.LINELEN in v)
+        if not tainted:
+            continue
+        n_ll += 1
+        bytes_too = U.BYTE in us.get(0, set()) or U.LINELEN in us.get(0, set()) or any(U.LINELEN in us.get(M.op_place(op)["l"], set())
+                                                                                          for (_b, kind, op, _s, _q) in result[p][1] if M.op_place(op) is not None)
+        if bytes_too:
+            res.bad("LINE-BYTES", "%s # offset from lines() lengths" % p,
+                    "%s derives a byte offset from the lengths of `lines()` items; lines() also strips `\\r\\n`, so in a document with CRLF line endings every "
+                    "position after the first line maps to an offset that is too small" % p, f.loc())
+    res.ok("LINE-BYTES", "no byte offset in lsp:: is derived from lines() item lengths (%d functions measure line lengths for other purposes)" % n_ll)
     # ---- LINE-RELATIVE
     f = P.funcs["lsp::offset_to_lsp_position"]
     enc = [(bi, t) for bi, t in f.calls() if (M.callee_name(t) or "").endswith("::encode_utf16")]
